@@ -2,6 +2,7 @@
 //! rsactor code. Quiescence = the main task waking from a very long virtual sleep.
 
 use crate::ev::*;
+use futures::FutureExt;
 use crate::sa::*;
 use crate::scen::*;
 use rsactor::{ActorRef, ActorWeak};
@@ -531,11 +532,12 @@ pub fn run_scenario(sc: &Scenario, erased: bool) -> RunOut {
                     if let Some((h, at)) = take_strong(&sh, &slots, a) {
                         let g = CallGuard::start(&sh, a, OpKind::Probe, 'U', PROBE_UID_BASE + a as u64, 0, Ctx::Main);
                         // bounded (one virtual hour): an actor stuck in a hook must not block the harness itself
-                        match tokio::time::timeout(Duration::from_millis(HOUR), probe_ask(&sh, &h, PROBE_UID_BASE + a as u64)).await {
-                            Ok(res) => {
+                        // (a panic raised inside the call under test must not take the harness' own task down: the guard records it)
+                        match tokio::time::timeout(Duration::from_millis(HOUR), std::panic::AssertUnwindSafe(probe_ask(&sh, &h, PROBE_UID_BASE + a as u64)).catch_unwind()).await {
+                            Ok(Ok(res)) => {
                                 g.end(res);
                             }
-                            Err(_) => drop(g),
+                            _ => drop(g),
                         }
                         give_back(&sh, &slots, a, h, at);
                     }
@@ -551,10 +553,10 @@ pub fn run_scenario(sc: &Scenario, erased: bool) -> RunOut {
                     if let Some((h, at)) = take_strong(&sh, &slots, a) {
                         match td {
                             Teardown::Stop => {
-                                stop_via(&sh, Ctx::Main, a, &h).await;
+                                let _ = std::panic::AssertUnwindSafe(stop_via(&sh, Ctx::Main, a, &h)).catch_unwind().await;
                             }
                             Teardown::Kill => {
-                                kill_via(&sh, Ctx::Main, a, &h);
+                                let _ = std::panic::catch_unwind(std::panic::AssertUnwindSafe(|| kill_via(&sh, Ctx::Main, a, &h)));
                             }
                             Teardown::DropAll => {}
                         }
@@ -603,12 +605,24 @@ pub fn run_scenario(sc: &Scenario, erased: bool) -> RunOut {
                             metrics_event(&sh, a, r, "survivor-strong");
                         }
                         let uid = POST_UID_BASE + 10 * a as u64;
-                        send_via(&sh, Ctx::Main, a, &h, SendKind::Tell, MTy::U, Body::plain(uid)).await;
-                        send_via(&sh, Ctx::Main, a, &h, SendKind::Ask, MTy::S, Body::plain(uid + 1)).await;
-                        send_via(&sh, Ctx::Main, a, &h, SendKind::AskTo(4), MTy::R, Body::plain(uid + 2)).await;
-                        send_via(&sh, Ctx::Main, a, &h, SendKind::TellTo(4), MTy::N, Body::plain(uid + 3)).await;
-                        stop_via(&sh, Ctx::Main, a, &h).await;
-                        kill_via(&sh, Ctx::Main, a, &h);
+                        let _ = std::panic::AssertUnwindSafe(async {
+                            send_via(&sh, Ctx::Main, a, &h, SendKind::Tell, MTy::U, Body::plain(uid)).await;
+                        })
+                        .catch_unwind()
+                        .await;
+                        let _ = std::panic::AssertUnwindSafe(async {
+                            send_via(&sh, Ctx::Main, a, &h, SendKind::Ask, MTy::S, Body::plain(uid + 1)).await;
+                        })
+                        .catch_unwind()
+                        .await;
+                        let _ = std::panic::AssertUnwindSafe(async {
+                            send_via(&sh, Ctx::Main, a, &h, SendKind::AskTo(4), MTy::R, Body::plain(uid + 2)).await;
+                            send_via(&sh, Ctx::Main, a, &h, SendKind::TellTo(4), MTy::N, Body::plain(uid + 3)).await;
+                            stop_via(&sh, Ctx::Main, a, &h).await;
+                        })
+                        .catch_unwind()
+                        .await;
+                        let _ = std::panic::catch_unwind(std::panic::AssertUnwindSafe(|| kill_via(&sh, Ctx::Main, a, &h)));
                         drop(h);
                         sh.model_add(a, -1, "survivor-drop");
                     }
